@@ -19,6 +19,7 @@ EXPLANATION_ADDED = 'R3 also decides necessity: with inhibit_rst=false every clo
 EXPLANATION_ADDED2 = " R1 also requires the dropped-flows consumer to close every notified flow irrespective of the slot's state; (R6) locally opened streams never get flow id 0, the value that means 'multiplexor dropped' on the dropped-flows channel (= C07.R1)."
 EXPLANATION = EXPLANATION + " Added while testing against seeded changes: " + EXPLANATION_ADDED + EXPLANATION_ADDED2
 EXPLANATION = EXPLANATION + ' Round 10: (R7) only the stream handle (own id) and the multiplexor handle (0) report on the dropped-flows queue.'
+EXPLANATION = EXPLANATION + ' Rounds 14-15: R7 counts conditional reports too; (R9) the closed flag is set before the writer is woken (= C12.R2); R1 requires the closed id to be the reported id itself; (S9) Frame::new_reset is exact.'
 ASSUMPTIONS = ["tokio mpsc unbounded send from Drop is non-blocking"]
 NOT_DECIDED = "absence of leaks over arbitrarily long histories (every way a slot leaves the map cleans it; whether every abandoned slot leaves the map depends on peer behaviour)"
 THOROUGH_CONFIGS = ["mux-nodefault", "mux-nohash"]
